@@ -57,9 +57,12 @@ pub struct ExponentialBackoff { pub id: Ghost<int> }
 pub struct ExponentialRandomBackoff { pub id: Ghost<int> }
 pub struct CustomInterval { pub id: Ghost<int> }
 pub uninterp spec fn interval_spec(kind: int, id: int, attempt: usize) -> Duration;
-impl FixedInterval { #[verifier::external_body] pub fn next_interval(&self, attempt: usize) -> (r: Duration) ensures r == interval_spec(1, self.id@, attempt) { unimplemented!() } }
-impl ExponentialBackoff { #[verifier::external_body] pub fn next_interval(&self, attempt: usize) -> (r: Duration) ensures r == interval_spec(2, self.id@, attempt) { unimplemented!() } }
-impl ExponentialRandomBackoff { #[verifier::external_body] pub fn next_interval(&self, attempt: usize) -> (r: Duration) ensures r == interval_spec(3, self.id@, attempt) { unimplemented!() } }
+impl FixedInterval { #[verifier::external_body] pub fn clone(&self) -> (r: Self) ensures r == *self { unimplemented!() }
+    #[verifier::external_body] pub fn next_interval(&self, attempt: usize) -> (r: Duration) ensures r == interval_spec(1, self.id@, attempt) { unimplemented!() } }
+impl ExponentialBackoff { #[verifier::external_body] pub fn clone(&self) -> (r: Self) ensures r == *self { unimplemented!() }
+    #[verifier::external_body] pub fn next_interval(&self, attempt: usize) -> (r: Duration) ensures r == interval_spec(2, self.id@, attempt) { unimplemented!() } }
+impl ExponentialRandomBackoff { #[verifier::external_body] pub fn clone(&self) -> (r: Self) ensures r == *self { unimplemented!() }
+    #[verifier::external_body] pub fn next_interval(&self, attempt: usize) -> (r: Duration) ensures r == interval_spec(3, self.id@, attempt) { unimplemented!() } }
 impl CustomInterval { #[verifier::external_body] pub fn next_interval(&self, attempt: usize) -> (r: Duration) ensures r == interval_spec(4, self.id@, attempt) { unimplemented!() } }
 pub struct ReconnectPredicate { pub id: Ghost<int> }
 pub uninterp spec fn predicate_spec<E>(p: ReconnectPredicate, e: E) -> bool;
@@ -133,6 +136,9 @@ impl ReconnectState {
     { unimplemented!() }
 }
 impl ReconnectPolicy {
+    pub fn clone(&self) -> (r: Self)
+        ensures r == *self,   // #a_cloned_policy_is_the_same_policy [C16,C14]
+    //@body ReconnectPolicy::clone@Clone file=policy
     pub fn delay_for_attempt(&self, attempt: usize) -> (r: Option<Duration>)
         ensures r == delay_spec(*self, attempt),   // #delegates_to_the_configured_interval_function [C16,C14]
     //@body ReconnectPolicy::delay_for_attempt file=policy
